@@ -578,6 +578,13 @@ def remapEntries (arg : Mapping) (mode : Option Str) (files : List (List Str)) (
     Option (List Dep) :=
   (readRemapFiles mode files).map fun ff => remapDeps (arg.merge ff false) flavor deps
 
+/-- the pinned `def remapEntries(self, mapping=Mapping(), mode=None)`: a call without a mapping argument uses — and
+its `merge` mutates — the one default object shared by all calls of the process.  `leftover` = that object as the
+earlier calls left it; the result is the remapped list and the object as this call leaves it. -/
+def remapEntriesDefaultPinned (leftover : Mapping) (mode : Option Str) (files : List (List Str)) (flavor : Str)
+    (deps : List Dep) : Option (List Dep × Mapping) :=
+  (readRemapFiles mode files).map fun ff => (remapDeps (leftover.merge ff false) flavor deps, leftover.merge ff false)
+
 def remapEntriesPinned (arg : Mapping) (mode : Option Str) (files : List (List Str)) (flavor : Str) (deps : List Dep) :
     Option (List Dep) :=
   (readRemapFilesPinned mode files).map fun ff => remapDeps (arg.merge ff false) flavor deps
